@@ -51,7 +51,7 @@ func mkRangeGeom(start string, n int) rangeGeom {
 var macLens = []int{6, 6, 0, 1, 5, 7, 8, 16, 2, 6}
 
 // hostname classes
-var hostClasses = []string{"none", "ascii", "num007", "num1e3", "nul", "badutf8", "long255", "quote"}
+var hostClasses = []string{"none", "ascii", "num007", "num1e3", "nul", "badutf8", "long255", "quote", "long300", "blank"}
 
 func hostOf(class string) (string, bool) {
 	switch class {
@@ -59,6 +59,10 @@ func hostOf(class string) (string, bool) {
 		return "", false
 	case "ascii":
 		return "host-a.example", true
+	case "long300":
+		return strings.Repeat("h", 300), true // longer than one option can carry: sent split over several instances (RFC 3396)
+	case "blank":
+		return " ", true
 	case "num007":
 		return "007", true
 	case "num1e3":
